@@ -16,6 +16,8 @@ type ModelRun struct {
 }
 
 type Model struct {
+	runIdx int
+	extra  map[int][]Conn // flow node id -> Connect calls made between runs so far
 	sc     *Scenario
 	visits []int
 	log    []string
@@ -62,6 +64,15 @@ func (m *Model) Run() ModelRun {
 	act, errID := m.node(m.sc.Root, &r)
 	r.Action, r.ErrID = act, errID
 	r.Log = append([]string(nil), m.log...)
+	for _, rw := range m.sc.Rewire {
+		if rw.AfterRun == m.runIdx {
+			if m.extra == nil {
+				m.extra = map[int][]Conn{}
+			}
+			m.extra[rw.Flow] = append(m.extra[rw.Flow], rw.Conn)
+		}
+	}
+	m.runIdx++
 	if m.sc.UseFlowRun && m.sc.Nodes[m.sc.Root].Kind == KFlow && errID == "" {
 		r.Action = "<flow.Run>"
 	}
@@ -72,7 +83,7 @@ func (m *Model) node(id int, r *ModelRun) (action string, errID string) {
 	s := &m.sc.Nodes[id]
 	if s.Kind == KFlow {
 		m.depth++
-		a, e := m.flow(s.Flow, r)
+		a, e := m.flow(id, s.Flow, r)
 		m.depth--
 		return a, e
 	}
@@ -87,6 +98,17 @@ func (m *Model) node(id int, r *ModelRun) (action string, errID string) {
 	r.Keys = append(r.Keys, key("prep", 0))
 	if sc.PrepErr {
 		return "", errID2(id, v, "prep", 0)
+	}
+	if s.Kind == KBatch {
+		r.Keys = append(r.Keys, key("item", 1), key("item", 2), key("post", 0))
+		m.log = append(m.log, fmt.Sprint(id))
+		if sc.PostErr {
+			return "", errID2(id, v, "post", 0)
+		}
+		if sc.Post == "" {
+			return DefaultAction, ""
+		}
+		return sc.Post, ""
 	}
 	n := EffBudget(s)
 	ok := false
@@ -122,7 +144,7 @@ func (m *Model) node(id int, r *ModelRun) (action string, errID string) {
 
 func errID2(node, visit int, phase string, attempt int) string { return errID(node, visit, phase, attempt) }
 
-func (m *Model) flow(f *FlowSpec, r *ModelRun) (string, string) {
+func (m *Model) flow(id int, f *FlowSpec, r *ModelRun) (string, string) {
 	// last Connect per (from, action) wins
 	type k struct {
 		from   int
@@ -130,6 +152,9 @@ func (m *Model) flow(f *FlowSpec, r *ModelRun) (string, string) {
 	}
 	table := map[k]int{}
 	for _, c := range f.Conns {
+		table[k{c.From, c.Action}] = c.To
+	}
+	for _, c := range m.extra[id] {
 		table[k{c.From, c.Action}] = c.To
 	}
 	cur := f.Start
